@@ -204,7 +204,11 @@ def check(rec, kind, idx, rng, tier):
         if np.isnan(g[judged]).any():
             i = tuple(int(v) for v in np.argwhere(judged & np.isnan(g))[0])
             rec.violation(name + '.nan_where_defined', '%s: NaN at %s although the formula gives %r' % (name, i, float(ref[i])), pay); continue
-        lim = 8 * E32 * np.maximum(scale, 1e-30)
+        # forward error bound: the kernels add the float32 bands in float32 before the float64 constants, so a denominator
+        # that nearly cancels carries a relative error eps32 * (sum of |terms|) / |denominator|
+        with np.errstate(all='ignore'):
+            cond = np.where(np.abs(den) > 0, np.maximum(1.0, terms / np.abs(den)), 1.0)
+        lim = 8 * E32 * np.maximum(scale, 1e-30) * np.where(np.isfinite(cond), cond, 1.0)
         with np.errstate(all='ignore'):
             bad = judged & ~(np.abs(g - ref) <= lim)
         if bad.any():
